@@ -113,35 +113,39 @@ Callback == A4 + 64           \* a pointer to code passed as an argument: sits i
 RECURSIVE KnowsFp(_,_)
 KnowsFp(ch, k) == IF k = 1 THEN TRUE
                   ELSE LET prev == ch[k - 1].tech IN IF prev = "cfi" THEN TRUE ELSE IF prev = "scan" THEN FALSE ELSE KnowsFp(ch, k - 1)
-RECURSIVE Lay(_,_,_,_,_,_)
-Lay(ch, k, sp, curfp, words, fr) ==
+RECURSIVE Lay(_,_,_,_,_,_,_)
+\* lf: the chain is entered through a stackless leaf function (its caller is then not the context frame)
+Lay(ch, k, sp, curfp, words, fr, lf) ==
   IF k > Len(ch) THEN [words |-> words, frames |-> fr, endsp |-> sp]
   ELSE LET c == ch[k]
            nextIp == IF k < Len(ch) THEN IpOf(ch[k + 1].tech) ELSE A4 + 8 IN
        CASE c.tech = "cfi" ->
               LET csp == sp + 2 * Ptr  cfp == 1000 + k IN
               Lay(ch, k + 1, csp, cfp, words \cup {<<sp, cfp>>, <<sp + Ptr, nextIp>>},
-                  Append(fr, [ip |-> nextIp, sp |-> csp, trust |-> "cfi", fp |-> cfp, fpKnown |-> TRUE]))
+                  Append(fr, [ip |-> nextIp, sp |-> csp, trust |-> "cfi", fp |-> cfp, fpKnown |-> TRUE]), lf)
          [] c.tech = "cfa" ->
               LET csp == sp + 2 * Ptr IN
               Lay(ch, k + 1, csp, curfp, words \cup {<<sp + Ptr, nextIp>>},
-                  Append(fr, [ip |-> nextIp, sp |-> csp, trust |-> "cfi", fp |-> curfp, fpKnown |-> KnowsFp(ch, k)]))
+                  Append(fr, [ip |-> nextIp, sp |-> csp, trust |-> "cfi", fp |-> curfp, fpKnown |-> KnowsFp(ch, k)]), lf)
          [] c.tech = "scan" ->
               \* o32: a frame that was itself called keeps four home slots for its callee's arguments at the bottom
-              LET home == IF Bits = 32 /\ k > 1 THEN 4 ELSE 0
+              LET home == IF Bits = 32 /\ (k > 1 \/ lf) THEN 4 ELSE 0
                   ra == sp + Ptr * (home + c.pad)  csp == ra + Ptr
                   hw == IF home = 0 THEN {} ELSE {<<sp + Ptr, Callback>>, <<sp + 3 * Ptr, Callback>>} IN
               Lay(ch, k + 1, csp, 0, words \cup hw \cup {<<ra, nextIp>>},
-                  Append(fr, [ip |-> nextIp, sp |-> csp, trust |-> "scan", fp |-> 0, fpKnown |-> FALSE]))
-Built(ch) == LET l == Lay(ch, 1, Base, 77, {}, <<>>) IN [words |-> l.words, frames |-> l.frames, fits |-> l.endsp + 4 * Ptr <= StackEnd]
+                  Append(fr, [ip |-> nextIp, sp |-> csp, trust |-> "scan", fp |-> 0, fpKnown |-> FALSE]), lf)
+Built(ch, lf) == LET l == Lay(ch, 1, Base, 77, {}, <<>>, lf) IN [words |-> l.words, frames |-> l.frames, fits |-> l.endsp + 4 * Ptr <= StackEnd]
 MemOf(ws) == [i \in 1..NW |-> LET a == Base + (i - 1) * Ptr  S == {w \in ws : w[1] = a} IN IF S = {} THEN 0 ELSE (CHOOSE w \in S : TRUE)[2]]
-InitBuilt == /\ rule = "std" /\ done = FALSE
-             /\ \E ch \in {c \in Chains : Buildable(c)} :
-                  LET b == Built(ch) IN
+\* lf: the context frame is a stackless leaf function of F1 (rule raleaf: .cfa: sp 0 + .ra: ra) called from the first function of
+\* the chain; the stack pointer does not move for that one step, and the chain itself then must not use F1's rule
+InitBuilt == /\ done = FALSE
+             /\ \E lf \in BOOLEAN : \E ch \in {c \in Chains : Buildable(c) /\ (lf => \A k \in 1..Len(c) : c[k].tech # "cfi")} :
+                  LET b == Built(ch, lf)  first == IpOf(ch[1].tech)  ip0 == IF lf THEN A1 ELSE first IN
                   /\ b.fits
+                  /\ rule = (IF lf THEN "raleaf" ELSE "std")
                   /\ mem = MemOf(b.words)
-                  /\ expect = b.frames
-                  /\ frames = <<[ip |-> IpOf(ch[1].tech), instr |-> IpOf(ch[1].tech), sp |-> Base, fp |-> 77, ra |-> 0, cs |-> 78,
+                  /\ expect = (IF lf THEN <<[ip |-> first, sp |-> Base, trust |-> "cfi", fp |-> 77, fpKnown |-> TRUE]>> ELSE <<>>) \o b.frames
+                  /\ frames = <<[ip |-> ip0, instr |-> ip0, sp |-> Base, fp |-> 77, ra |-> IF lf THEN first ELSE 0, cs |-> 78,
                                 valid |-> {"pc", "sp", "fp", "ra", "cs"}, trust |-> "context"]>>
 Init == IF Mode = "any" THEN InitAny ELSE InitBuilt
 Spec == Init /\ [][Next]_vars
